@@ -86,9 +86,13 @@ def shortest_decimal(x):
         c.prec = 40
         e = exact.adjusted()
         for n in range(1, 18):
-            q = exact.quantize(Decimal(1).scaleb(e - n + 1), rounding=decimal.ROUND_HALF_UP)
-            if float(q) == x:
-                return q
+            unit = Decimal(1).scaleb(e - n + 1)
+            # the nearest n-digit decimal first; at a power of two the gap below x is half the gap above, so the
+            # neighbour on the other side may be the only n-digit decimal that reads back as x
+            cands = [exact.quantize(unit, rounding=decimal.ROUND_HALF_UP), exact.quantize(unit, rounding=decimal.ROUND_FLOOR), exact.quantize(unit, rounding=decimal.ROUND_CEILING)]
+            ok = [q for q in cands if float(q) == x]
+            if ok:
+                return min(ok, key=lambda q: (abs(q - exact), -abs(q)))
     return Decimal(repr(x))
 
 
